@@ -495,6 +495,9 @@ def roundtrip(obj, cls, fmt, what, how):
     """print, parse back, compare: -> (canonical output, violation or None)"""
     text = str(obj)
     viol = None
+    h6 = obj.host if what == 'netaddress' else obj.address.host
+    if isinstance(h6, ipaddress.IPv6Address) and not (':' in str(h6) and o_ip(str(h6)) == h6):
+        viol = ('c18:iplib-law', f'ipaddress breaks an assumed law on {h6!r}')
     try:
         back = cls.from_string(text)
         rt = 'ok_' + fmt(back)
@@ -507,7 +510,7 @@ def roundtrip(obj, cls, fmt, what, how):
         port = obj.port
         fam = 'bool-port' if isinstance(port, bool) else \
             ('ipv6-scope-bracket' if isinstance(obj.host, ipaddress.IPv6Address) and ']' in str(obj.host) else 'other')
-        viol = (f'c18:{what}-roundtrip:{fam}', f'{how}: str() = {text!r} does not parse back ({exc_name(e)})')
+        viol = viol or (f'c18:{what}-roundtrip:{fam}', f'{how}: str() = {text!r} does not parse back ({exc_name(e)})')
     return f'ok {fmt(obj)} {enc(text)} rt={rt} eq={eq}', viol
 
 
@@ -523,6 +526,8 @@ def bool_port_refused(c):
         v = py_other(c.args[0])
     elif c.op == 'mkaddr':
         v = py_other(c.args[1])
+    elif c.op == 'addrd':
+        v = py_other(c.args[2])
     else:
         return False
     return isinstance(v, bool) and c.impl in ('TypeError', 'ValueError')
@@ -975,7 +980,7 @@ def default_cases(rng, n):
             if rng.random() < 0.7:
                 table[(k, 'h')] = rng.choice(hosts)
             if rng.random() < 0.7:
-                table[(k, 'p')] = rng.choice(ports)
+                table[(k, 'p')] = rng.choice([x for x in ports if not isinstance(x, bool)])
         out.append(Case('svcd', stext, table))
     return out
 
@@ -1106,13 +1111,13 @@ def run(ctx):
     # (d) exhaustive: integers and their renderings
     evaluate(ctx, int_cases(-2, 65537), res, 'ints_-2_65537')
     evaluate(ctx, ip4_cases(rng, 4000 if ctx.deep else 800), res, 'ipv4_concrete')
-    # (e) every code point in every position context
+    # (e) generated objects, strings from and near the grammar
+    evaluate(ctx, generated_cases(rng, 20000 if ctx.deep and not res.failed else 1500), res, 'generated')
+    evaluate(ctx, default_cases(rng, 12000 if ctx.deep and not res.failed else 1500), res, 'default_func')
+    # (f) every code point in every position context
     full = False
     if not res.failed or not ctx.deep:
         full = run_sweeps(ctx, res)
-    # (f) generated objects, strings from and near the grammar
-    evaluate(ctx, generated_cases(rng, 20000 if ctx.deep and not res.failed else 1500), res, 'generated')
-    evaluate(ctx, default_cases(rng, 12000 if ctx.deep and not res.failed else 1500), res, 'default_func')
     for c in generated_cases(random.Random(ctx.seed + 1), 2)[:4]:
         run_case(c, 4300)
         res.sample({'line': c.line[:200], 'impl': c.impl[:200]})
